@@ -270,6 +270,7 @@ func ruleOrderO4(c *Ctx) {
 	ci := p.Calls()
 	var prodN, drainN *Node
 	var chV types.Object
+	var prodLit *Func
 	for _, cs := range ci.sites[f] {
 		if cs.Kind != "go" || len(cs.Callees) != 1 || cs.Callees[0].Lit == nil {
 			continue
@@ -279,7 +280,7 @@ func ruleOrderO4(c *Ctx) {
 			if ss, ok := x.(*ast.SendStmt); ok {
 				if v := identObj(lf.Pkg.TypesInfo, ss.Chan); v != nil {
 					if ch, ok := v.Type().Underlying().(*types.Chan); ok && types.Identical(ch.Elem(), types.Typ[types.String]) {
-						prodN, chV = cs.Node, v
+						prodN, chV, prodLit = cs.Node, v, lf
 					}
 				}
 			}
@@ -345,6 +346,20 @@ func ruleOrderO4(c *Ctx) {
 			}
 			return true
 		})
+	}
+	if prodN != nil && drainN == nil {
+		// no drain: the producer itself gives a line up once Start has returned -
+		// every send of a line is an arm of a select whose other arm receives
+		// from a channel that only a defer of Start closes
+		if dn, how := p.producerAbandons(f, prodLit, chV); dn != nil {
+			seen := g.ReachAfter(prodN, func(x *Node) bool { return x == dn }, nil)
+			if _, bad := seen[g.Exit]; bad && !g.Dominates(dn, prodN) {
+				c.R.Violate("R-ORDER/O4", p.Pos(dn.Ast), f.Name, "drain registered right after the producer", "Start can return between starting the stdout producer and registering the deferred close of the channel that releases it: the producer blocks on its channel and the plugin on its pipe", p.PathTo(seen, g.Exit))
+			} else {
+				c.R.Hold("R-ORDER/O4", p.Pos(dn.Ast), f.Name, "drain registered right after the producer", how, true)
+			}
+			return
+		}
 	}
 	if prodN == nil || drainN == nil {
 		c.R.Violate("R-ORDER/O4", p.Pos(f.Node()), f.Name, "stdout line producer and deferred drain", fmt.Sprintf("the goroutine sending stdout lines (%v) or the deferred goroutine draining the same channel (%v) was not found: after Start returns nobody receives the lines and the producer blocks", prodN != nil, drainN != nil), nil)
@@ -760,4 +775,158 @@ func (p *Prog) sentinelOnEveryPath(f *Func, start *Node, sent types.Object) bool
 		}
 	}
 	return n > 0
+}
+
+// abandonChans: the locals of f of type chan struct{} that are closed by a
+// defer statement of f itself and by nothing else, and are never sent on: such
+// a channel is closed exactly when f has returned. The value is the defer node.
+func (p *Prog) abandonChans(f *Func) map[types.Object]*Node {
+	info := f.Pkg.TypesInfo
+	g := p.Graph(f)
+	out := map[types.Object]*Node{}
+	closes := map[types.Object]int{}
+	bad := map[types.Object]bool{}
+	ast.Inspect(f.Body, func(x ast.Node) bool {
+		switch s := x.(type) {
+		case *ast.CallExpr:
+			if id, ok := s.Fun.(*ast.Ident); ok && id.Name == "close" && len(s.Args) == 1 && info.Uses[id] == types.Universe.Lookup("close") {
+				if o := identObj(info, s.Args[0]); o != nil {
+					closes[o]++
+				}
+			}
+		case *ast.SendStmt:
+			if o := identObj(info, s.Chan); o != nil {
+				bad[o] = true
+			}
+		case *ast.AssignStmt:
+			// re-binding after the definition
+			if s.Tok == token.ASSIGN {
+				for _, l := range s.Lhs {
+					if o := identObj(info, l); o != nil {
+						bad[o] = true
+					}
+				}
+			}
+		}
+		return true
+	})
+	for _, m := range g.Nodes {
+		ds, ok := m.Ast.(*ast.DeferStmt)
+		if !ok {
+			continue
+		}
+		call := ds.Call
+		if fl, isLit := ast.Unparen(call.Fun).(*ast.FuncLit); isLit && len(fl.Body.List) == 1 && len(call.Args) == 0 {
+			if es, ok := fl.Body.List[0].(*ast.ExprStmt); ok {
+				if c2, ok := es.X.(*ast.CallExpr); ok {
+					call = c2
+				}
+			}
+		}
+		id, ok := call.Fun.(*ast.Ident)
+		if !ok || id.Name != "close" || len(call.Args) != 1 || info.Uses[id] != types.Universe.Lookup("close") {
+			continue
+		}
+		v, ok := identObj(info, call.Args[0]).(*types.Var)
+		if !ok || v.IsField() || bad[v] || closes[v] != 1 {
+			continue
+		}
+		if ch, ok := v.Type().Underlying().(*types.Chan); !ok || ch.Dir() != types.SendRecv {
+			continue
+		}
+		if d := p.singleDef(f, v); d == nil {
+			continue
+		} else if mk, ok := ast.Unparen(d).(*ast.CallExpr); !ok || types.ExprString(mk.Fun) != "make" {
+			continue
+		}
+		out[v] = m
+	}
+	return out
+}
+
+// isAbandonRecv: the comm statement `<-D` (or `_, _ = <-D`) of a select clause.
+func isAbandonRecv(info *types.Info, m *Node, ds map[types.Object]*Node) types.Object {
+	if m == nil || m.Ast == nil {
+		return nil
+	}
+	var e ast.Expr
+	switch s := m.Ast.(type) {
+	case *ast.ExprStmt:
+		e = s.X
+	case *ast.AssignStmt:
+		if len(s.Rhs) == 1 {
+			e = s.Rhs[0]
+		}
+	}
+	ue, ok := ast.Unparen(e).(*ast.UnaryExpr)
+	if e == nil || !ok || ue.Op != token.ARROW {
+		return nil
+	}
+	if o := identObj(info, ue.X); o != nil && ds[o] != nil {
+		return o
+	}
+	return nil
+}
+
+// producerAbandons: every send on ch in the goroutine lit is an arm of a select
+// that also has an arm receiving from one abandon channel of f. Returns the
+// defer node that closes that channel.
+func (p *Prog) producerAbandons(f, lit *Func, ch types.Object) (*Node, string) {
+	if lit == nil || ch == nil {
+		return nil, ""
+	}
+	ds := p.abandonChans(f)
+	if len(ds) == 0 {
+		return nil, ""
+	}
+	info := lit.Pkg.TypesInfo
+	var dn *Node
+	ok, n := true, 0
+	var walk func(x ast.Node, sel *ast.SelectStmt)
+	ast.Inspect(lit.Body, func(x ast.Node) bool {
+		ss, isSend := x.(*ast.SendStmt)
+		if !isSend || identObj(info, ss.Chan) != ch {
+			return true
+		}
+		n++
+		// the enclosing select, if the send is a comm statement
+		var owner *ast.SelectStmt
+		ast.Inspect(lit.Body, func(y ast.Node) bool {
+			if sel, isSel := y.(*ast.SelectStmt); isSel {
+				for _, cl := range sel.Body.List {
+					if cl.(*ast.CommClause).Comm == ast.Stmt(ss) {
+						owner = sel
+					}
+				}
+			}
+			return true
+		})
+		if owner == nil {
+			ok = false
+			return true
+		}
+		has := false
+		for _, cl := range owner.Body.List {
+			cm := cl.(*ast.CommClause).Comm
+			if cm == nil {
+				continue
+			}
+			if o := isAbandonRecv(info, &Node{Ast: cm}, ds); o != nil {
+				has = true
+				if dn != nil && dn != ds[o] {
+					ok = false
+				}
+				dn = ds[o]
+			}
+		}
+		if !has {
+			ok = false
+		}
+		return true
+	})
+	_ = walk
+	if !ok || n == 0 || dn == nil {
+		return nil, ""
+	}
+	return dn, "no drain goroutine: every send of a stdout line is an arm of a select whose other arm receives from a channel that only a defer of Start closes, and that defer is registered on every path from the producer's go statement to a return"
 }
